@@ -95,6 +95,18 @@ type ev struct {
 	DC   int    `json:"dc,omitempty"`   // migrate target
 }
 
+func (e ev) String() string {
+	switch {
+	case e.PFS != "":
+		return "pfs=" + e.PFS
+	case e.Op == "migrate":
+		return fmt.Sprintf("migrate(%d)", e.DC)
+	case e.Conn != "":
+		return e.Op + "(" + e.Conn + ")"
+	}
+	return e.Op
+}
+
 const (
 	primaryDC = 2
 	otherDC   = 4
@@ -127,6 +139,8 @@ type world struct {
 	gen    int
 	told   []announce
 	ctx    context.Context
+
+	primaryBefore int // primary DC before the event being applied
 }
 
 func newClient(pfs bool, st *session.StorageMemory) *telegram.Client {
@@ -189,6 +203,7 @@ func (w *world) conn(slot string) *mconn {
 
 func (w *world) apply(e ev) kit.Result {
 	before, _ := w.store.Bytes(nil)
+	w.primaryBefore = w.client.VerifC30Session().DC
 	switch e.Op {
 	case "open":
 		if w.conn(e.Conn) == nil {
@@ -315,7 +330,8 @@ func (w *world) judge(before []byte, e ev) kit.Result {
 	if changed {
 		// title of the property: the saved session is the one of the *primary* DC; a save triggered by
 		// a non-primary / CDN connection must not replace it.
-		if p := w.client.VerifC30Session().DC; d.DC != p {
+		// (the primary DC before the event: only migration changes it, and migration does not save)
+		if p := w.primaryBefore; d.DC != p {
 			return kit.Bad("saved-non-primary-dc", "after %v: the client saved a session for DC %d while its primary DC is %d", e, d.DC, p)
 		}
 		return kit.OKo("saved")
